@@ -156,6 +156,12 @@ def check_obligations() -> list:
                                           'the shared id tables are only read')))
             if spec is None:
                 continue
+            if code in BOUNDED_FALLBACK:
+                # exactness of this check is decided by its small-scope enumeration in every case (the per-entry
+                # de-duplication is outside what the interpreter models precisely, whichever way it is written)
+                if not any(isinstance(x, tuple) and x[:3] == ('bounded', name, code) for x in obs):
+                    obs.append(('bounded', name, code, 'decided by enumeration'))
+                continue
             res = o.value
             if not isinstance(res, MDict):
                 obs.append(Obligation(f'{name}:exact:{pid}', decided=False, detail='result is not a dict', **cm))
@@ -400,6 +406,23 @@ def zoo_bounded(sess: Session):
                               functions=('wn.validate.validate',))
 
 
+def oracle_bounded(sess: Session):
+    """Random differential of all 18 checks against an oracle written from their documented conditions
+    (bounded/validate_oracle.py); W403 and W404, which have no symbolic predicate, are decided only here."""
+    from bounded import validate_oracle as VO
+    n = 20000 if sess.tier == 'thorough' else 4000
+    cases, problems = VO.sweep(n, sess.seed)
+    sess.add_bounded('wn.validate.validate (all 18 checks)', f'{cases} random broken lexicons (seed {sess.seed}): <= 3 '
+                     'synsets, <= 3 entries x <= 3 senses, relations to existing / missing / wrong-kind targets, '
+                     'duplicate ids (E101 only)', cases, 'native execution against an oracle from the documented '
+                     'conditions', not problems)
+    for k, pr in enumerate(problems[:3]):
+        what = pr.get('code', 'no-raise')
+        sess.violation_direct(f'wn.validate:{what}:oracle#{k}', (f"{what}: reported {pr.get('reported')} documented "
+                              f"{pr.get('documented')}" if 'code' in pr else pr['raised'])[:600],
+                              {'witness': repr(pr)[:2500]}, True, functions=('wn.validate.validate',))
+
+
 def rejection_bounded(sess: Session):
     """A lexicon for which E204 / E401 is reported is rejected by add (native, generated lexicons): dangling synset of a
     sense, dangling target of a synset relation, of a sense relation and of a sense-synset relation."""
@@ -534,6 +557,7 @@ def run(sess: Session):
     for ob in table_obligations():
         sess.check(ob)
     zoo_bounded(sess)
+    oracle_bounded(sess)
     rejection_bounded(sess)
     cli_bounded(sess)
     sess.trust('vc/pyvc', 'collections.Counter: count(x) > 1 iff x occurs at two positions (A-PY-COUNTER)')
